@@ -87,7 +87,7 @@ func anchorFuncs(spec *propSpec, p *Prog) ([]*FuncInfo, []string) {
 // isPackageScanRule: rules that visit every function of a package (generic disciplines); the functions they name are not
 // taken as anchors of the mutation sweep (the sweep measures the property-specific rules on the property's own code).
 func isPackageScanRule(rule string) bool {
-	for _, suf := range []string{"value-guarded-by-error", "error-branch-fails", "every-error-tested", "lock.pairing", "crash.inventory", "crash.value-types", "no-stale-element-pointer", "loopvar", "count-before-eof", "join.read-after-sync", "forget.link-count-writers"} {
+	for _, suf := range []string{"value-guarded-by-error", "error-branch-fails", "every-error-tested", "argument-roles", "lock.pairing", "crash.inventory", "crash.value-types", "no-stale-element-pointer", "loopvar", "count-before-eof", "join.read-after-sync", "forget.link-count-writers"} {
 		if strings.HasSuffix(rule, suf) {
 			return true
 		}
